@@ -400,14 +400,17 @@ def classify(ctx, rejected, label):
     deviation flag, then under each pair; returns {id: [flags]} (['unexplained'] if none)."""
     why = {}
     todo = list(rejected)
-    for size, combos in ((1, [[f] for f in ALL_FLAGS]),
-                         (2, [[a, b] for i, a in enumerate(ALL_FLAGS) for b in ALL_FLAGS[i + 1:]]),
-                         (3, [[a, b, c] for i, a in enumerate(ALL_FLAGS) for j, b in enumerate(ALL_FLAGS[i + 1:], i + 1)
-                              for c in ALL_FLAGS[j + 1:]])):
+    singles = [[f] for f in ALL_FLAGS]
+    pairs = [[a, b] for i, a in enumerate(ALL_FLAGS) for b in ALL_FLAGS[i + 1:]]
+    triples = [[a, b, c] for i, a in enumerate(ALL_FLAGS) for j, b in enumerate(ALL_FLAGS[i + 1:], i + 1)
+               for c in ALL_FLAGS[j + 1:]]
+    # few rejections: singles and pairs in one TLC run (a JVM start costs more than the extra cases)
+    stages = [singles + pairs, triples] if len(todo) <= 40 else [singles, pairs, triples]
+    for stage, combos in enumerate(stages):
         if not todo:
             break
-        if size > 1 and len(todo) > 30:
-            # many recordings that no single flag explains (a broken tree): classify a sample, the rest is
+        if stage > 0 and len(todo) > 30:
+            # many recordings that no small flag set explains (a broken tree): classify a sample, the rest is
             # reported as unexplained right away
             for c in todo[30:]:
                 why[c["id"]] = ["unexplained"]
@@ -416,12 +419,12 @@ def classify(ctx, rejected, label):
         for c in todo:
             for k, fl in enumerate(combos):
                 batch.append(slim(c, fl, "%s#%d" % (c["id"], k)))
-        rej, _ = accept(ctx, batch, "%s_cls%d" % (label, size))
+        rej, _ = accept(ctx, batch, "%s_cls%d" % (label, stage + 1))
         nxt = []
         for c in todo:
             ok = [fl for k, fl in enumerate(combos) if "%s#%d" % (c["id"], k) not in rej]
             if ok:
-                why[c["id"]] = ok[0]
+                why[c["id"]] = min(ok, key=len)
             else:
                 nxt.append(c)
         todo = nxt
